@@ -230,6 +230,111 @@ func ruleR23() *Rule {
 				}
 				return nn || cnn, dim || cdim
 			}
+			// the filtered search may use the unfiltered engine call only when every
+			// document of the segment is eligible: len(eligible) == numDocs
+			containsUnfiltered := func(f *ssa.Function) bool {
+				for _, cs := range callSites(f) {
+					if iv, m, ok := faissMethod(cs); ok && m == "SearchWithoutIDs" && isCell(iv, idxCell) {
+						return true
+					}
+				}
+				return false
+			}
+			nFiltered := 0
+			for _, fn := range p.ZapFuncs {
+				if fn.Parent() != ivi {
+					continue
+				}
+				var elig *ssa.Parameter
+				for _, pr := range fn.Params {
+					if sl, ok := pr.Type().Underlying().(*types.Slice); ok {
+						if bt, ok := sl.Elem().Underlying().(*types.Basic); ok && bt.Kind() == types.Uint64 {
+							elig = pr
+						}
+					}
+				}
+				if elig == nil {
+					continue
+				}
+				nFiltered++
+				isLenElig := func(v ssa.Value, actual func(ssa.Value) ssa.Value) bool {
+					for i := 0; i < 3; i++ {
+						if cv, ok := v.(*ssa.Convert); ok {
+							v = cv.X
+							continue
+						}
+						break
+					}
+					call, ok := v.(*ssa.Call)
+					if !ok {
+						return false
+					}
+					b, ok := call.Call.Value.(*ssa.Builtin)
+					if !ok || b.Name() != "len" {
+						return false
+					}
+					a := call.Call.Args[0]
+					if actual != nil {
+						a = actual(a)
+					}
+					return a == ssa.Value(elig)
+				}
+				isNumDocs := func(v ssa.Value) bool {
+					for i := 0; i < 3; i++ {
+						if cv, ok := v.(*ssa.Convert); ok {
+							v = cv.X
+							continue
+						}
+						break
+					}
+					return isLoadOfField(v, "SegmentBase", "numDocs")
+				}
+				condTr := func(cond ssa.Value, outcome bool, ev uint64, actual func(ssa.Value) ssa.Value) uint64 {
+					bo, ok := cond.(*ssa.BinOp)
+					if !ok || (bo.Op != token.EQL && bo.Op != token.NEQ) {
+						return ev
+					}
+					if (isLenElig(bo.X, actual) && isNumDocs(bo.Y)) || (isLenElig(bo.Y, actual) && isNumDocs(bo.X)) {
+						if (bo.Op == token.EQL) == outcome {
+							return ev | 1
+						}
+						return ev &^ 1
+					}
+					return ev
+				}
+				fpa := newPathAnalysis(fn, func(ssa.Instruction, uint64, bool) []uint64 { return nil })
+				fpa.condTr = condTr
+				fpa.edgeTr = func(pred *ssa.BasicBlock, succIdx int, ev uint64) uint64 {
+					if iff, ok := pred.Instrs[len(pred.Instrs)-1].(*ssa.If); ok && len(pred.Succs) == 2 {
+						return condTr(iff.Cond, succIdx == 0, ev, fpa.actual)
+					}
+					return ev
+				}
+				fpa.run(0)
+				k := 0
+				for _, cs := range callSites(fn) {
+					unf := false
+					if iv, m, ok := faissMethod(cs); ok && m == "SearchWithoutIDs" && isCell(iv, idxCell) {
+						unf = true
+					} else if g := resolvedCallee(cs); g != nil && g.Parent() == ivi && g != fn && containsUnfiltered(g) {
+						unf = true
+					}
+					if !unf {
+						continue
+					}
+					k++
+					okc := len(fpa.statesBefore(cs)) > 0
+					for _, ev := range fpa.statesBefore(cs) {
+						if ev&1 == 0 {
+							okc = false
+						}
+					}
+					c.check(okc, fmt.Sprintf("%s/unfiltered-only-when-all-eligible#%d", funcShortName(fn), k), c.pos(cs),
+						"the filtered search falls back to the unfiltered engine call only when the number of eligible documents equals the segment's document count (every document is eligible)",
+						"the unfiltered search is reachable from the filtered one without `len(eligible) == numDocs`: documents outside the eligible set can be returned", "call: "+describeInstr(p, cs))
+				}
+			}
+			c.check(nFiltered >= 1, "filtered-closure", "-", "the filtered search closure (the one with an eligible-documents parameter) is found", "none found")
 			nSearch := 0
 			for _, fn := range p.ZapFuncs {
 				if fn.Parent() != ivi {
